@@ -1,7 +1,11 @@
-(* Refl/BoundedProofs.v -- C07: fuel adequacy of the handler loops of Refl/Bounded.v. *)
+(* Refl/BoundedProofs.v -- C07: fuel adequacy and meaning of the handler loops of Refl/Bounded.v.
+   Part 1: the list-editing loops (JettisonOutgoingResults, PushSubscriptionMessages) and the dispatch. *)
 From Coq Require Import List NArith ZArith Bool Arith Lia.
-From Muscle Require Import Gen.Consts Refl.Base Refl.Tree Refl.Matcher Refl.Traverse Refl.Session Refl.Server Refl.Bounded.
+From Muscle Require Import Gen.Consts Refl.Base Refl.Tree Refl.Matcher Refl.Traverse Refl.Session Refl.Server
+  Refl.Bounded Refl.BoundedSpec.
 Import ListNotations.
+
+(* ------------------------------------------------------------------ remove_nth / replace_nth *)
 
 Lemma remove_nth_length_lt : forall (A : Type) (n : nat) (l : list A),
   n < length l -> length (remove_nth n l) = length l - 1.
@@ -16,3 +20,179 @@ Proof.
   intros A n l Hn. unfold remove_nth.
   rewrite firstn_all2 by lia. rewrite skipn_all2 by lia. apply app_nil_r.
 Qed.
+
+Lemma remove_nth_app : forall (A : Type) (pre : list A) (x : A) (suf : list A),
+  remove_nth (length pre) (pre ++ x :: suf) = pre ++ suf.
+Proof.
+  intros A pre x suf. unfold remove_nth.
+  rewrite firstn_app, Nat.sub_diag, firstn_all, firstn_O, app_nil_r.
+  replace (S (length pre)) with (length (pre ++ [x])) by (rewrite app_length; simpl; lia).
+  replace (pre ++ x :: suf) with ((pre ++ [x]) ++ suf) by (rewrite <- app_assoc; reflexivity).
+  rewrite skipn_app, Nat.sub_diag, skipn_all, skipn_O. reflexivity.
+Qed.
+
+Lemma replace_nth_app : forall (A : Type) (pre : list A) (x y : A) (suf : list A),
+  replace_nth (length pre) (pre ++ x :: suf) y = pre ++ y :: suf.
+Proof.
+  intros A pre x y suf. induction pre as [|a pre IH]; simpl.
+  - reflexivity.
+  - rewrite IH. reflexivity.
+Qed.
+
+Lemma nth_error_app_len : forall (A : Type) (pre : list A) (x : A) (suf : list A),
+  nth_error (pre ++ x :: suf) (length pre) = Some x.
+Proof.
+  intros A pre x suf. rewrite nth_error_app2 by lia. rewrite Nat.sub_diag. reflexivity.
+Qed.
+
+Lemma nth_error_app_end : forall (A : Type) (pre : list A),
+  nth_error pre (length pre) = None.
+Proof. intros A pre. apply nth_error_None. lia. Qed.
+
+(* ------------------------------------------------------------------ weights *)
+
+Section Proofs.
+Context {M : MatchOps}.
+
+Lemma list_max_ge : forall (l : list nat) (x : nat), In x l -> x <= list_max l.
+Proof.
+  induction l as [|a l IH]; intros x Hin; simpl in *.
+  - contradiction.
+  - destruct Hin as [->|Hin]; [lia|]. specialize (IH x Hin). lia.
+Qed.
+
+Lemma qweight_ge : forall (q : list omsg) (x : omsg), In x q -> omsg_weight x <= qweight q.
+Proof. intros q x Hin. unfold qweight. apply list_max_ge. apply in_map. exact Hin. Qed.
+
+Lemma sets_weight_ge : forall (fs : list (path * list payload)) (p : path) (vs : list payload),
+  In (p, vs) fs -> length vs <= sets_weight fs.
+Proof.
+  induction fs as [|[q ws] fs IH]; intros p vs Hin; simpl in *.
+  - contradiction.
+  - unfold sets_weight in *. simpl. destruct Hin as [Heq|Hin].
+    + inversion Heq; subst. lia.
+    + specialize (IH p vs Hin). lia.
+Qed.
+
+(* ------------------------------------------------------------------ the removed-strings loop *)
+
+Lemma jett_removed_spec : forall (m : matcher) (suf pre : list path) (fuel : nat),
+  length suf < fuel ->
+  jett_removed m fuel (pre ++ suf) (length pre) = Some (pre ++ filter (keep_removed m) suf).
+Proof.
+  intros m suf. induction suf as [|p suf IH]; intros pre fuel Hf.
+  - destruct fuel as [|f]; [simpl in Hf; lia|]. simpl.
+    rewrite app_nil_r. rewrite nth_error_app_end. reflexivity.
+  - destruct fuel as [|f]; [simpl in Hf; lia|].
+    cbn [jett_removed]. rewrite nth_error_app_len. unfold keep_removed at 1. cbn [filter].
+    destruct (matches_path m p None) eqn:Hm; cbn [negb].
+    + rewrite remove_nth_app. apply IH. simpl in Hf. lia.
+    + replace (pre ++ p :: suf) with ((pre ++ [p]) ++ suf) by (rewrite <- app_assoc; reflexivity).
+      replace (S (length pre)) with (length (pre ++ [p])) by (rewrite app_length; simpl; lia).
+      rewrite IH by (simpl in Hf; lia). rewrite <- app_assoc. reflexivity.
+Qed.
+
+(* ------------------------------------------------------------------ the per-field item loop, repaired (IDX = j) *)
+
+Lemma jett_items_spec : forall (m : matcher) (i : nat) (p : path) (suf pre : list payload) (fuel : nat),
+  length suf < fuel ->
+  jett_items true m fuel i p (pre ++ suf) (length pre) = Some (pre ++ filter (keep_value m p) suf).
+Proof.
+  intros m i p suf. induction suf as [|v suf IH]; intros pre fuel Hf.
+  - destruct fuel as [|f]; [simpl in Hf; lia|]. simpl.
+    rewrite app_nil_r. rewrite nth_error_app_end. reflexivity.
+  - destruct fuel as [|f]; [simpl in Hf; lia|].
+    cbn [jett_items]. rewrite nth_error_app_len. unfold keep_value at 1. cbn [filter].
+    destruct (matches_path m p (Some v)) eqn:Hm; cbn [negb].
+    + rewrite remove_nth_app. apply IH. simpl in Hf. lia.
+    + replace (pre ++ v :: suf) with ((pre ++ [v]) ++ suf) by (rewrite <- app_assoc; reflexivity).
+      replace (S (length pre)) with (length (pre ++ [v])) by (rewrite app_length; simpl; lia).
+      rewrite IH by (simpl in Hf; lia). rewrite <- app_assoc. reflexivity.
+Qed.
+
+(* as found (IDX = i, the queue index): when the current value is to go and the field holds no more than i values,
+   nothing is removed and j does not advance -- for every amount of fuel *)
+Lemma jett_items_stuck : forall (m : matcher) (i : nat) (p : path) (vs : list payload) (j : nat) (v : payload),
+  nth_error vs j = Some v -> matches_path m p (Some v) = true -> length vs <= i ->
+  forall fuel, jett_items false m fuel i p vs j = None.
+Proof.
+  intros m i p vs j v Hn Hm Hi fuel. induction fuel as [|f IH].
+  - reflexivity.
+  - cbn [jett_items]. rewrite Hn, Hm. rewrite remove_nth_out_of_range by exact Hi. exact IH.
+Qed.
+
+(* ------------------------------------------------------------------ one Message *)
+
+Lemma jett_fields_spec : forall (m : matcher) (i : nat) (fuel : nat) (fs : list (path * list payload)),
+  sets_weight fs < fuel ->
+  jett_fields true m fuel i fs = Some (flat_map (field_spec m) fs).
+Proof.
+  intros m i fuel fs. induction fs as [|[p vs] fs IH]; intros Hf.
+  - reflexivity.
+  - cbn [jett_fields flat_map].
+    assert (Hvs : length vs < fuel) by (unfold sets_weight in Hf; simpl in Hf; lia).
+    assert (Hfs : sets_weight fs < fuel) by (unfold sets_weight in *; simpl in Hf; lia).
+    rewrite (IH Hfs). unfold field_spec at 1. cbn [fst snd].
+    destruct (N.ltb 0 (m_nfilters m)) eqn:Hnf.
+    + pose proof (jett_items_spec m i p vs [] fuel Hvs) as Hit. simpl in Hit. rewrite Hit.
+      destruct (filter (keep_value m p) vs); reflexivity.
+    + destruct (matches_path m p None); [reflexivity|]. destruct vs; reflexivity.
+Qed.
+
+Lemma jett_msg_spec : forall (m : matcher) (i : nat) (fuel : nat) (d : ditems),
+  di_weight d < fuel -> jett_msg true m fuel i d = Some (msg_spec m d).
+Proof.
+  intros m i fuel d Hf. unfold jett_msg, di_weight in *.
+  pose proof (jett_removed_spec m (di_removed d) [] fuel ltac:(lia)) as Hr. simpl in Hr. rewrite Hr.
+  rewrite jett_fields_spec by lia. reflexivity.
+Qed.
+
+(* ------------------------------------------------------------------ the queue *)
+
+Lemma jett_queue_spec : forall (om : option matcher) (fuel : nat) (pre done : list omsg),
+  qweight pre < fuel ->
+  jett_queue true om fuel (length pre) (pre ++ done) = Some (jq_spec om pre ++ done).
+Proof.
+  intros om fuel pre. induction pre as [|x pre IH] using rev_ind; intros done Hf.
+  - reflexivity.
+  - rewrite app_length. simpl length. rewrite Nat.add_1_r. cbn [jett_queue].
+    rewrite <- app_assoc. cbn [app]. rewrite nth_error_app_len.
+    assert (Hpre : qweight pre < fuel).
+    { unfold qweight in *. rewrite map_app, list_max_app in Hf. lia. }
+    assert (Hx : omsg_weight x < fuel).
+    { pose proof (qweight_ge (pre ++ [x]) x ltac:(apply in_or_app; right; left; reflexivity)). lia. }
+    unfold jq_spec. rewrite flat_map_app. cbn [flat_map]. rewrite app_nil_r. rewrite <- app_assoc.
+    destruct x as [d|id roots|t|code what]; cbn [omsg_spec]; try (rewrite IH by exact Hpre; reflexivity).
+    assert (Hd : (match om with Some m => jett_msg true m fuel (length pre) d | None => Some empty_di end)
+                 = Some (match om with Some m => msg_spec m d | None => empty_di end)).
+    { destruct om as [m|]; [|reflexivity]. apply jett_msg_spec. exact Hx. }
+    rewrite Hd.
+    destruct (di_has_names (match om with Some m => msg_spec m d | None => empty_di end)).
+    + rewrite replace_nth_app. rewrite IH by exact Hpre. reflexivity.
+    + rewrite remove_nth_app. rewrite IH by exact Hpre. reflexivity.
+Qed.
+
+(* JettisonOutgoingResults, repaired: returns within fuel "heaviest queued Message + 1" and removes exactly what matches *)
+Lemma jettison_results_spec : forall (om : option matcher) (fuel : nat) (q : list omsg),
+  qweight q < fuel -> jettison_results true om fuel q = Some (jq_spec om q).
+Proof.
+  intros om fuel q Hf. unfold jettison_results.
+  pose proof (jett_queue_spec om fuel q [] Hf) as H. rewrite !app_nil_r in H. exact H.
+Qed.
+
+Lemma jettison_results_fuel : forall (om : option matcher) (fuel : nat) (q : list omsg),
+  qweight q < fuel -> exists q', jettison_results true om fuel q = Some q'.
+Proof. intros om fuel q Hf. eexists. apply jettison_results_spec. exact Hf. Qed.
+
+(* ------------------------------------------------------------------ PushSubscriptionMessages *)
+
+Lemma push_loop_spec : forall (fuel : nat) (sv : server), 2 <= fuel -> push_loop fuel sv = Some (push_all sv).
+Proof.
+  intros fuel sv Hf. destruct fuel as [|[|f]]; try lia.
+  unfold push_all. cbn [push_loop]. destruct (sv_dirty sv) eqn:Hd; cbn [sv_dirty]; reflexivity.
+Qed.
+
+Lemma bpush_spec_ok : forall (fuel : nat) (b : bserver), 2 <= fuel -> bpush fuel b = Some (bpush_spec b).
+Proof. intros fuel b Hf. unfold bpush, bpush_spec. rewrite push_loop_spec by exact Hf. reflexivity. Qed.
+
+End Proofs.
